@@ -35,6 +35,22 @@ def run(chk):
             strategies.append("actions")
         for s in strategies:
             items.append(("t%d_%s" % (n, s), T.assign_ids(t, s, r)))
+    # deep and wide trees (the enumerations above stop at 5 / 8 nodes): chains widget > layout > widget ... with a leaf, and flat fans
+    def chain(depth):
+        t = {"cls": "QLabel", "id": "", "kids": [], "sep": False, "acts": []}
+        for k in range(depth - 1, 0, -1):
+            kids = [t] if k % 2 == 1 else [t, {"cls": "QSpacerItem", "id": "", "kids": [], "sep": False, "acts": []}]      # a spacer beside every widget in a layout
+            t = {"cls": "QWidget" if k % 2 == 1 else "QVBoxLayout", "id": "", "kids": kids, "sep": False, "acts": []}
+        return t if t["cls"] == "QWidget" else {"cls": "QWidget", "id": "", "kids": [t], "sep": False, "acts": []}
+    for d in ((15, 60, 101, 102, 103, 120) if quick else (15, 60, 99, 100, 101, 102, 103, 104, 110, 120)):      # (the JSON reader of TLC nests at most 255 levels, i.e. ~125 objects)
+        t = chain(d)
+        items.append(("deep%d_anon" % d, T.assign_ids(t, "anon", r)))
+        items.append(("deep%d_all" % d, T.assign_ids(t, "all", r)))
+    deep_ids = {i for i, _ in items if i.startswith(("deep", "fan"))}
+    fan = {"cls": "QWidget", "id": "", "kids": [{"cls": "QVBoxLayout", "id": "", "sep": False, "acts": [],
+                                                  "kids": [{"cls": "QLabel", "id": "", "kids": [], "sep": False, "acts": []} for _ in range(300)]}], "sep": False, "acts": []}
+    items.append(("fan300_anon", fan))
+    deep_ids.add("fan300_anon")
     log("C11: %d shapes, %d documents" % (len(shapes), len(items)))
     exp = T.expect_forms(chk, items)
     reqs = [T.request(i, t) for i, t in items]
@@ -47,6 +63,8 @@ def run(chk):
         if run_.get("panic") or run_.get("timeout") or run_.get("crash"):
             continue
         accepted = bool(run_.get("built")) and not run_.get("has_error")
+        if i in deep_ids and not (e["accepted"] and accepted):
+            raise ToolError("the deep / wide document %s is not accepted (model %s, translator %s)" % (i, e["accepted"], accepted))
         if not e["accepted"]:
             if accepted:
                 chk.violation("inadmissible object tree accepted without a diagnostic", {"qml": T.document(t), "ui": run_.get("ui")})
